@@ -40,6 +40,9 @@ TRUSTED = ["hand model lean/AwsVerif/Model/Xml.lean (tied by this correspondence
            "translator gen/xml_gen.py (+ gen/cfun.py): compiled sizeof probe, source-text patterns, clang AST of cut-out guards",
            "props/c12.py render / parse_dialect / expected (reference reader of the dialect, Python)"]
 ASSUMPTIONS = ["documents are at most SIZE_MAX/2 bytes (explicit hypothesis of the theorems: aws_byte_cursor_advance refuses larger steps)",
+               "parsing on several threads is claimed for independent documents only: all parser state (parser struct, pattern "
+               "buffers, split scratch, callback stack) lives on the caller's stack / in the caller's allocator (generated check: no "
+               "function-local of xml_parser.c has static storage; threads stage under TSan)",
                "callbacks propagate the return code of aws_xml_node_traverse / aws_xml_node_as_body and call at most one of them, once",
                "memchr / memcmp / memcpy have their ISO meaning and are charged with all n bytes"]
 RULE = ("wf: trees over names {a,ab,abc,b,aa} (+ long names 255/256/257/300), depth 1..25, 0..11 attributes, text without < >, "
@@ -589,8 +592,27 @@ def malformed_cases(rng, tier):
     return cases
 
 
+def big_cases(rng, tier):
+    """same-name nesting far beyond the depth limit inside an element that is skipped / read as body (the depth limit
+    only bounds what the callback descends into; the closing-tag search counts every nested opening), and one document
+    with more than 4 GiB of text in front of a child (offsets beyond 32 bits)"""
+    cases = []
+    ns = [0, 1, 19, 20, 21, 254, 255, 256, 257, 258, 300, 511, 512, 513, 1000, 4095, 4096, 4097]
+    ns += [8191, 8192, 8193, 16384]
+    for n in ns:
+        for mode in "sb":
+            nm = rng.choice([b"a", b"ab", b"Item"]) if n < 5000 else b"a"
+            cases.append(Case([f"xmlnest {n} {hx(nm)} {mode}"], dict(stream="wf", kind="deep-same-name")))
+    if tier == "thorough":
+        # a 16-bit counter: the search is quadratic in the nesting (about 75 s for this one case under ASan)
+        cases.append(Case([f"xmlnest 65536 {hx(b'a')} s"], dict(stream="wf", kind="deep-same-name")))
+    cases.append(Case(["xmlhuge 4"], dict(stream="wf", kind="huge")))
+    cases.append(Case(["xmlhuge 2048"], dict(stream="wf", kind="huge")))
+    return cases
+
+
 def gen_cases(rng, tier):
-    return gen_wf(rng, tier) + malformed_cases(rng, tier)
+    return big_cases(rng, tier) + gen_wf(rng, tier) + malformed_cases(rng, tier)
 
 
 # ----------------------------------------------------------------------------- oracle
@@ -651,7 +673,17 @@ def safety_errors(lines, doc_empty):
     return errs
 
 
+BIG_OPS = ("xmlnest", "xmlhuge")
+
+
 def oracle(case, lines):
+    if len(case.ops) == 1 and case.ops[0].split()[0] in BIG_OPS:
+        # parametrised large documents: harness/xml.c compares the callbacks with the generating parameters itself
+        op = case.ops[0].split()[0]
+        errs = [f"{case.ops[0][:60]}: " + l for l in lines if l.startswith("P MONITOR") or not l.startswith(("P ", "W "))]
+        if not errs and lines != [f"P {op} ok"]:
+            errs.append(f"{case.ops[0][:60]}: unexpected output {lines[:3]}")
+        return errs
     errs = []
     for op, seg in _segments(case, lines):
         if op is None:
@@ -701,6 +733,8 @@ def _first_diff(what, got, exp):
 
 
 def nontrivial(case):
+    if case.ops and case.ops[0].split()[0] in BIG_OPS:
+        return True
     op = _op(case)
     if op is None:
         return False
@@ -735,9 +769,45 @@ def distribution(cases, c_out):
     return d
 
 
+def threads_stage(ctx):
+    """4 threads parse independent documents concurrently; xml_parser.c and byte_buf.c are compiled with TSan for it"""
+    import subprocess, time
+    tsan = ["-fsanitize=thread", "-DUSE_SIMD_ENCODING"]
+    try:
+        exe = cbuild.build_harness(
+            name="xml_threads", flavour="plain",
+            extra_srcs=[(os.path.join(cbuild.REPO, "source", "xml_parser.c"), tsan, "xml_parser_tsan"),
+                        (os.path.join(cbuild.REPO, "source", "byte_buf.c"), tsan, "byte_buf_tsan")],
+            extra_cflags=["-fsanitize=thread"], ldflags=["-fsanitize=thread"])
+    except cbuild.BuildError as e:
+        ctx.machinery_broken("threads stage build: " + str(e)[:1500])
+        return
+    its = 10000 if ctx.tier == "quick" else 200000
+    env = dict(os.environ, TSAN_OPTIONS="halt_on_error=1:exitcode=66:second_deadlock_stack=0")
+    t0 = time.time()
+    try:
+        r = subprocess.run([exe, str(its)], stdout=subprocess.PIPE, stderr=subprocess.STDOUT, text=True, timeout=300, env=env)
+        rc, out = r.returncode, r.stdout
+    except subprocess.TimeoutExpired as e:
+        rc, out = -999, (e.stdout or "") + "\n[timeout]"
+    ctx.cov["threads_stage"] = {"threads": 4, "parses": 4 * its, "rc": rc, "wall_s": round(time.time() - t0, 2)}
+    ctx.cov["evaluations"] += 1
+    if "FATAL: ThreadSanitizer" in out:
+        # the sanitizer runtime could not start in this environment (address-space layout): not a verdict about the code
+        ctx.cov["threads_stage"]["skipped"] = "ThreadSanitizer runtime could not start: " + out.strip().splitlines()[0][:200]
+        return
+    if rc != 0 or f"P threads ok {4 * its}" not in out:
+        what = "data race reported by ThreadSanitizer" if "ThreadSanitizer" in out else "mis-report / failure"
+        ctx.violation(f"threads-{ctx.seed}", {"stage": "threads", "cmd": f"{exe} {its}", "rc": rc, "observed": out[-3000:]},
+                      f"independent documents parsed concurrently on 4 threads: {what} ("
+                      + next((l for l in out.splitlines() if "MONITOR" in l or "data race" in l), "rc=%d" % rc)[:200] + ")")
+
+
 def extra_stages(ctx):
-    """make a failure of the Lean stage visible also when the oracle has already found concrete violations
-    (core.finish only turns it into a VIOLATION line of its own when there is none)"""
+    """the threads stage; and make a failure of the Lean stage visible also when the oracle has already found concrete
+    violations (core.finish only turns it into a VIOLATION line of its own when there is none)"""
+    if not ctx.replay:
+        threads_stage(ctx)
     if ctx.lean_ok is False and ctx.violations:
         first = (ctx.lean_err or "lean stage failed").strip().splitlines()[0]
         print("  lean stage: proof obligations no longer check against the current source: " + first[:300])
